@@ -36,7 +36,8 @@ ValuesOf(cfg, i) ==
 (* declaration and what the request carries vary independently                                                         *)
 MkB(os, ds, acc, cfg, bd, body, mu, xb, xq, rb, un) ==
    [nilsec |-> FALSE, unsized |-> un, opSec |-> os, docSec |-> ds, accepts |-> acc, pparams |-> ParamsOf(cfg, "p", 1), oparams |-> ParamsOf(cfg, "o", 1),
-    values |-> ValuesOf(cfg, 1), bdecl |-> bd, body |-> body, multi |-> mu, exclBody |-> xb, exclQuery |-> xq, authReadsBody |-> rb, hist |-> <<>>]
+    values |-> ValuesOf(cfg, 1), bdecl |-> bd, body |-> body, multi |-> mu, exclBody |-> xb, exclQuery |-> xq, authReadsBody |-> rb, hist |-> <<>>,
+    opts |-> "plain"]
 MkU(os, ds, acc, cfg, body, mu, xb, xq, rb, un) ==
    MkB(os, ds, acc, cfg, IF body = "none" THEN "none" ELSE "required", body, mu, xb, xq, rb, un)
 
@@ -56,15 +57,46 @@ HCfg(p, o, p2) == <<[p |-> p, o |-> o], [p |-> p2, o |-> "none"], [p |-> "none",
 HValues(t) == IF t = "-" THEN <<>> ELSE <<V("query", "a", t)>>
 HBase(os, ds, acc, cfg, t, bd, body, mu) ==
    [nilsec |-> FALSE, unsized |-> FALSE, opSec |-> os, docSec |-> ds, accepts |-> acc, pparams |-> ParamsOf(cfg, "p", 1), oparams |-> ParamsOf(cfg, "o", 1),
-    values |-> HValues(t), bdecl |-> bd, body |-> body, multi |-> mu, exclBody |-> FALSE, exclQuery |-> FALSE, authReadsBody |-> FALSE, hist |-> <<>>]
+    values |-> HValues(t), bdecl |-> bd, body |-> body, multi |-> mu, exclBody |-> FALSE, exclQuery |-> FALSE, authReadsBody |-> FALSE, hist |-> <<>>, opts |-> "plain"]
 Step(via, os, ds, cfg, bd) == [via |-> via, pparams |-> ParamsOf(cfg, "p", 1), oparams |-> ParamsOf(cfg, "o", 1), opSec |-> os, docSec |-> ds, bdecl |-> bd]
 (* every history ends by going back to the first route (A-B-A): both "the first one seen wins" and "the last one seen  *)
 (* wins" show                                                                                                          *)
 WithHist(b, s) == [b EXCEPT !.hist = <<s, StepOf(b, "back")>>]
 HSecs == {Absent, L(<<>>), L(<< <<"A">> >>)}
 
+(* ---- the four parameter locations: the same name in path, cookie and header ---- *)
+LKeys == << <<"path", "a">>, <<"cookie", "a">>, <<"header", "a">> >>
+RECURSIVE ParamsOfK(_, _, _, _)
+ParamsOfK(keys, cfg, level, i) ==
+   IF i > Len(keys) THEN <<>>
+   ELSE (IF cfg[i][level] = "none" THEN <<>> ELSE <<P(keys[i][1], keys[i][2], cfg[i][level])>>) \o ParamsOfK(keys, cfg, level, i + 1)
+RECURSIVE ValuesOfK(_, _, _)
+ValuesOfK(keys, cfg, i) ==
+   IF i > Len(keys) THEN <<>>
+   ELSE (IF (cfg[i].p = "none" /\ cfg[i].o = "none") \/ cfg[i].t = "-" THEN <<>> ELSE <<V(keys[i][1], keys[i][2], cfg[i].t)>>) \o ValuesOfK(keys, cfg, i + 1)
+MkL(cfg, mu, xq) ==
+   [Mk(Absent, <<>>, {}, NoParams, "none", mu, FALSE, xq, FALSE) EXCEPT !.pparams = ParamsOfK(LKeys, cfg, "p", 1), !.oparams = ParamsOfK(LKeys, cfg, "o", 1),
+                                                                         !.values = ValuesOfK(LKeys, cfg, 1)]
+(* ---- scopes ---- *)
+ScopeSecs == {Absent, L(<< <<"A+r">> >>), L(<< <<"A+r">>, <<"A+w">> >>), L(<< <<"A+w", "B">>, <<"A">> >>), L(<< <<"A">>, <<"A+r">> >>)}
+
 VARIABLE case
 Init ==
+   \* location focus: path, cookie and header parameters of one name, every override pattern over at most two of them (a
+   \* path parameter is always required and always present: the route would not match otherwise)
+   \/ \E cfg \in [1..3 -> KeyCfgs], mu \in BOOLEAN :
+        /\ \E i \in 1..3 : cfg[i] = Inactive
+        /\ case = MkL(cfg, mu, FALSE)
+   \* scope focus: requirements that list scopes; the callback decides per (scheme, scopes)
+   \/ \E os \in ScopeSecs, ds \in {<<>>, << <<"A+w">> >>, << <<"A">> >>}, acc \in SUBSET {"A", "A+r", "A+w", "B"}, mu \in BOOLEAN :
+        case = Mk(os, ds, acc, NoParams, "none", mu, FALSE, FALSE, FALSE)
+   \* options the statement does not mention (SkipSettingDefaults, ExcludeReadOnlyValidations) and no Options value at all
+   \/ \E o \in {"skipdefaults", "exclreadonly", "nil"}, k1 \in [p : {"none"}, o : {"int", "reqint", "reqintd"}, t : {"1", "x", "-"}],
+         k2 \in {Inactive, [p |-> "strx", o |-> "none", t |-> "1"]}, bd \in BDecls, body \in {"none", "pass", "fail"},
+         os \in {Absent, L(<<>>), L(<< <<"A">> >>)}, mu \in BOOLEAN, xb \in BOOLEAN :
+        /\ (o = "nil" => os # L(<< <<"A">> >>) /\ ~mu /\ ~xb)
+        /\ (Tier = "quick" => ~xb /\ bd # "optional")
+        /\ case = [MkB(os, <<>>, {}, <<k1, k2, Inactive>>, bd, body, mu, xb, FALSE, FALSE, FALSE) EXCEPT !.opts = o]
    \* body focus: what the operation declares x what the request carries x exclusion x security outcome x multi-error
    \/ \E bd \in BDecls, body \in Bodies, sec \in {"nosec", "pass", "fail"}, mu \in BOOLEAN, xb \in BOOLEAN, rb \in BOOLEAN, un \in BOOLEAN,
          cfg \in {NoParams, OneFailingQuery} :
